@@ -1,4 +1,5 @@
-import Spine.DispatchHist
+import Spine.DispatchData
+import Spine.DispatchHdr
 /-!
 # C01 — every inbound request gets exactly the one correctly addressed response
 
@@ -12,9 +13,19 @@ Status: the exactness clause is PROVED for the repaired member (`c01_exact`), RE
 (`c01_exact_refuted`: a result addressed to an unknown feature is answered with an error result) and PROVED for
 every member outside that one point (`c01_exact_partial`); addressing, "no response to any other peer", the
 node-management calls and the lift over histories are PROVED for every member.
-Not modelled (monitored on the real code by `TestDispatch` only): that the reply *carries the function's current
-data* (payloads are abstract function ids), the *device part* of the addresses, datagrams that trip
-`PrintMessageOverview` (reply / result without reference, result without result data: `panics`, C05's subject).
+Data: the model carries abstract data values (`W.data`: per local feature and function the identity of the operation
+that set it — an accepted remote write or `SetData` / `UpdateData` of the local application); "the reply carries the
+function's CURRENT data" is PROVED per step (`c01_reply_current_data`) and over histories (`c01_reply_last_set`:
+the value last written or set), together with the frame (`c01_data_frame`: nothing else changes any data).
+Header layer: the member `overviewPanics = false` is the repaired `PrintMessageOverview`: reply / result without
+reference, result without result data or error number, requests without msgCounter are processed like any other
+datagram (the answer to a request without counter carries no reference); for that member the exactness theorems hold
+for ALL datagrams (`c01_exact_all`), for the member as written under `wf`. `c01_hdr_agrees` ties this model to C05's
+header family `Spine.Hdr.pre` on the shared part.
+Device part: the source of a response carries the local device address, except the unknown-destination error, which
+echoes the destination's device part as sent (`c01_source_device`).
+Not modelled (monitored by `TestDispatch` only): the device part of the *destination* of a response; node-management
+payloads beyond: empty payloads, the number of the caller's entries in subscription / binding data replies.
 -/
 namespace Spine.Props.C01
 open Spine.Disp
@@ -23,14 +34,22 @@ open Spine.Disp
     caches, subscriptions and bindings), every peer and every datagram, the replies and results the stack emits are
     exactly those the classifier rules prescribe, in that order, all on the sender's connection — no more, no
     fewer, none to another peer. -/
-theorem c01_exact (w : W) (p : Nat) (d : Dg) (hcfg : w.cfg.resultOnResult = false) (hwf : panics d = false)
+theorem c01_exact (w : W) (p : Nat) (d : Dg) (hcfg : w.cfg.resultOnResult = false) (hwf : NoCrash w d)
     (hNM : nmReadOnly w) :
     (processCmd w p d).2.filterMap kindOf = (expected w p d).map fun r => (p, r) :=
   Spine.Disp.c01_exact w p d hcfg hwf hNM
 
+/-- Exactness for the member that matches the repaired code (`resultOnResult` and `overviewPanics` off): no
+    hypothesis on the datagram at all — also a reply / result without reference, a result without result data, a
+    request without msgCounter get exactly the responses of the rule table. -/
+theorem c01_exact_all (w : W) (p : Nat) (d : Dg) (hcfg : w.cfg.resultOnResult = false)
+    (hpmo : w.cfg.overviewPanics = false) (hNM : nmReadOnly w) :
+    (processCmd w p d).2.filterMap kindOf = (expected w p d).map fun r => (p, r) :=
+  Spine.Disp.c01_exact w p d hcfg (fun h => by rw [hpmo] at h; cases h) hNM
+
 /-- Exactness, every member of the family (also the code as written), outside the one excluded point: a `result`
     addressed to a local feature that does not exist. -/
-theorem c01_exact_partial (w : W) (p : Nat) (d : Dg) (hwf : panics d = false) (hNM : nmReadOnly w)
+theorem c01_exact_partial (w : W) (p : Nat) (d : Dg) (hwf : NoCrash w d) (hNM : nmReadOnly w)
     (hx : w.cfg.resultOnResult = true → ¬ resultToUnknown w d) :
     (processCmd w p d).2.filterMap kindOf = (expected w p d).map fun r => (p, r) :=
   Spine.Disp.c01_exact_partial w p d hwf hNM hx
@@ -39,12 +58,12 @@ theorem c01_exact_partial (w : W) (p : Nat) (d : Dg) (hwf : panics d = false) (h
     an unknown local feature is answered with an error result (`device_local.go`, `ProcessCmd` sends the error
     before it looks at the classifier). Kernel-checked witness `refW`, `refD`. -/
 theorem c01_exact_refuted :
-    ∃ (w : W) (p : Nat) (d : Dg), w.cfg = {} ∧ panics d = false ∧ nmReadOnly w ∧
+    ∃ (w : W) (p : Nat) (d : Dg), w.cfg = {} ∧ wf d = true ∧ nmReadOnly w ∧
       (processCmd w p d).2.filterMap kindOf ≠ (expected w p d).map fun r => (p, r) :=
   Spine.Disp.c01_exact_refuted
 
 /-- the witness, spelled out: the code as written answers, the repaired member does not -/
-example : (processCmd refW 1 refD).2 = [(1, Out.result 7 4 ([9], 9) ([0], 0))] ∧ expected refW 1 refD = [] ∧
+example : (processCmd refW 1 refD).2 = [(1, Out.result (some 7) 4 ([9], 9) ([0], 0) (some 0))] ∧ expected refW 1 refD = [] ∧
     (processCmd { refW with cfg := Cfg.clean } 1 refD).2 = [] := by decide
 
 /-- Addressing, every member: every reply and result is written to the sender's connection (no response to any
@@ -63,7 +82,7 @@ theorem c01_call (w : W) (p : Nat) (ctr : Nat) (ack : Bool) (k : Call) (hc : con
 
 /-- Histories: after any sequence of datagrams, registry calls, entity notifications, disconnects and connects by any
     peers, the next datagram is answered exactly as prescribed in the world of that moment. -/
-theorem c01_history (w0 : W) (ops : List Op) (p : Nat) (d : Dg) (hwf : panics d = false) (hNM : nmReadOnly w0)
+theorem c01_history (w0 : W) (ops : List Op) (p : Nat) (d : Dg) (hwf : NoCrash w0 d) (hNM : nmReadOnly w0)
     (hx : w0.cfg.resultOnResult = true → ¬ resultToUnknown (run w0 ops) d) :
     (processCmd (run w0 ops) p d).2.filterMap kindOf = (expected (run w0 ops) p d).map fun r => (p, r) :=
   Spine.Disp.c01_history w0 ops p d hwf hNM hx
@@ -76,9 +95,9 @@ def exCli : LF := { ent := [1], feat := 3, typ := 1, role := .client, fds := [5,
 def exPeer : Peer := ⟨[⟨[0], 0, [901, 902], 9, .special⟩, ⟨[1], 1, [5, 6], 1, .client⟩], 3, []⟩
 def exW : W :=
   { loc := [exNM, exSrv, exCli], peers := fun _ => exPeer, binds := [(([1], 1), 1, ([1], 1))],
-    subs := [(([1], 1), 2, ([1], 1))] }
+    subs := [(([1], 1), 2, ([1], 1))], data := setData (fun _ _ => 0) ([1], 1) 5 33 }
 def exDg (cls : Cls) (dst : Addr) (ack : Bool) (fn : Nat) (ref : Option Nat := none) : Dg :=
-  ⟨([1], 1), dst, 40, ref, cls, ack, fn, false⟩
+  { src := ([1], 1), dst := dst, ctr := some 40, ref := ref, cls := cls, ack := ack, fn := fn, val := 77 }
 
 example : nmReadOnly exW := by
   intro lf hlf hnm o ho
@@ -89,9 +108,9 @@ example : nmReadOnly exW := by
   · cases hnm
 
 example :
-    expected exW 1 (exDg .read ([1], 1) false 5) = [.reply 5] ∧                   -- read of a server feature
+    expected exW 1 (exDg .read ([1], 1) false 5) = [.reply 5 33] ∧                   -- read of a server feature
     expected exW 1 (exDg .read ([1], 3) false 5) = [.error] ∧                     -- read of a client feature
-    expected exW 1 (exDg .read ([0], 0) false 901) = [.reply 901] ∧               -- read of the special feature
+    expected exW 1 (exDg .read ([0], 0) false 901) = [.reply 901 0] ∧               -- read of the special feature
     expected exW 1 (exDg .notify ([1], 3) true 5) = [.success] ∧                  -- accepted notify, ack requested
     expected exW 1 (exDg .notify ([1], 3) false 5) = [] ∧                         -- accepted notify, no ack
     expected exW 1 (exDg .reply ([1], 3) true 77 (some 2)) = [.error] ∧           -- rejected reply
@@ -106,7 +125,100 @@ example :
     subscriber on connection 2 -/
 example :
     (processCmd exW 1 (exDg .write ([1], 1) true 5)).2 =
-      [(2, .notify 5 ([1], 1) ([1], 1)), (1, .result 40 0 ([1], 1) ([1], 1))] ∧
-    (processCmd exW 1 (exDg .read ([1], 1) false 5)).2 = [(1, .reply 40 5 ([1], 1) ([1], 1))] := by decide
+      [(2, .notify 5 ([1], 1) ([1], 1) 77), (1, .result (some 40) 0 ([1], 1) ([1], 1) (some 0))] ∧
+    (processCmd exW 1 (exDg .read ([1], 1) false 5)).2 = [(1, .reply (some 40) 5 ([1], 1) ([1], 1) 33 (some 0))] := by decide
+
+/-! ### the reply carries the function's current data -/
+
+/-- Current data, per step, every member: a read of a function that a server / special (non node-management) feature
+    holds is answered with exactly one reply, and it carries the value the world holds for (feature, function) at
+    that moment. -/
+theorem c01_reply_current_data (w : W) (p : Nat) (d : Dg) (lf : LF) (rf : RF) (hsrc : srcF w p d = some rf)
+    (hdst : dstF w d = some lf) (hr : d.cls = .read) (hnm : lf.nm = false) (hrole : lf.role ≠ .client)
+    (hf : lf.fds.contains d.fn = true) (hnc : NoCrash w d) :
+    (processCmd w p d).2 = [(p, .reply d.ctr d.fn d.dst d.src (w.data d.dst d.fn) (some 0))] :=
+  Spine.Disp.c01_reply_current_data w p d lf rf hsrc hdst hr hnm hrole hf hnc
+
+/-- Frame: one operation changes the data exactly as `dataSet` says — an accepted write (gate passed, engine accepts,
+    no crash) or a local set changes exactly the addressed value; every other operation (denied writes, reads, replies,
+    notifies, calls, registry changes, entity notifications, disconnects, connects) changes no data. -/
+theorem c01_data_frame (w : W) (op : Op) : (step w op).1.data = applySet w.data (dataSet w op) :=
+  Spine.Disp.data_step w op
+
+/-- Current data over histories: after any history, the reply carries the value of the LAST operation of the history
+    that set (feature, function) — an accepted remote write or a `SetData` / `UpdateData` of the local application —
+    and the initial value if there was none. -/
+theorem c01_reply_last_set (w0 : W) (ops : List Op) (p : Nat) (d : Dg) (lf : LF) (rf : RF)
+    (hsrc : srcF (run w0 ops) p d = some rf) (hdst : dstF (run w0 ops) d = some lf) (hr : d.cls = .read)
+    (hnm : lf.nm = false) (hrole : lf.role ≠ .client) (hf : lf.fds.contains d.fn = true) (hnc : NoCrash w0 d) :
+    (processCmd (run w0 ops) p d).2 =
+      [(p, .reply d.ctr d.fn d.dst d.src (lastSet d.dst d.fn (w0.data d.dst d.fn) (dtrace w0 ops)) (some 0))] :=
+  Spine.Disp.c01_reply_last_set w0 ops p d lf rf hsrc hdst hr hnm hrole hf hnc
+
+/-- non-vacuity: local set, authorised write by peer 1, denied write by peer 2, then peer 2 reads: the reply carries
+    peer 1's value, not the denied one and not the locally set one -/
+example :
+    let ops : List Op := [.setData ([1], 1) 5 11, .dg 1 { exDg .write ([1], 1) true 5 with val := 22 },
+      .dg 2 { exDg .write ([1], 1) true 5 with val := 99 }]
+    (processCmd (run exW ops) 2 (exDg .read ([1], 1) false 5)).2 = [(2, .reply (some 40) 5 ([1], 1) ([1], 1) 22 (some 0))] ∧
+    dtrace exW ops = [some (([1], 1), 5, 11), some (([1], 1), 5, 22), none] := by decide
+
+/-! ### device part of the response source -/
+
+/-- Source device, every member: a response names the local device (`some 0`) as the device of its source, except
+    the error for an unknown destination, which echoes the device part of the destination as sent; for a
+    well-addressed request (destination device = the local device address) it is the local device in every case. -/
+theorem c01_source_device (w : W) (p : Nat) (d : Dg) (o : Nat × Out) (ho : o ∈ (processCmd w p d).2)
+    (hd : d.dstDev = some 0) :
+    match o.2 with
+    | .reply _ _ _ _ _ sd => sd = some 0
+    | .result _ _ _ _ sd => sd = some 0
+    | _ => True := by
+  have h := Spine.Disp.c01_addressing w p d o ho
+  obtain ⟨q, out⟩ := o
+  cases out <;> simp only [addressed] at h ⊢
+  · rcases h.2.2.2.2 with h | h
+    · exact h
+    · rw [h, hd]
+  · rcases h.2.2.2.2 with h | h
+    · exact h
+    · rw [h, hd]
+
+example : (processCmd { refW with cfg := Cfg.clean } 1 { refD with cls := .read, dstDev := none }).2 =
+    [(1, .result (some 7) 4 ([9], 9) ([0], 0) none)] := by decide
+
+/-! ### the repaired header layer, and agreement with C05's header family -/
+
+/-- Agreement with `Spine.Hdr.pre` (C05) on the shared part — datagrams with source, destination, classifier, one cmd
+    and regular filters: the header family's member `pmo = !overviewPanics`, `noResOnRes = !resultOnResult` (the
+    `addr` and `filter` guards are invisible here and free) yields, on the image of the datagram, exactly the outcome
+    class `preOf` reads off `processCmd`, panic site included. -/
+theorem c01_hdr_agrees (w : W) (p : Nat) (d : Dg) (a f : Bool) :
+    Hdr.pre (hdrCfg w.cfg a f) (toRaw w p d) = preOf w p d :=
+  Spine.Disp.pre_agrees w p d a f
+
+/-- … and the outcome classes mean what they say for `processCmd`: dropped = nothing written, error result = exactly
+    the unknown-destination error on the sender's connection, panic = the panic, proceed = the step reaches the gate
+    and the feature. -/
+theorem c01_hdr_classes (w : W) (p : Nat) (d : Dg) :
+    (preOf w p d = .dropped → (processCmd w p d).2 = []) ∧
+    (preOf w p d = .errorResult → (processCmd w p d).2 = [(p, resU d)]) ∧
+    (∀ s, preOf w p d = .panic s → (processCmd w p d).2 = [(p, .panic)]) ∧
+    (preOf w p d = .proceed → ∃ rf lf, srcF w p d = some rf ∧ dstF w d = some lf ∧ crashes w p lf rf d = false) :=
+  ⟨pre_dropped w p d, pre_errorResult w p d, pre_panic w p d, pre_proceed w p d⟩
+
+/-- non-vacuity, and what the repaired member does with the inputs outside C01's quantifier: a reply without
+    reference is processed like any reply (acknowledged if requested); a result without result data is not answered;
+    a read without msgCounter is answered with a reply that carries no reference; as written all three panic -/
+def cleanW : W := { exW with cfg := Cfg.clean }
+example :
+    (processCmd cleanW 1 (exDg .reply ([1], 3) true 5)).2 = [(1, .result (some 40) 0 ([1], 3) ([1], 1) (some 0))] ∧
+    (processCmd cleanW 1 (exDg .result ([1], 3) true 5 (some 2))).2 = [] ∧
+    (processCmd cleanW 1 { exDg .read ([1], 1) false 5 with ctr := none }).2 = [(1, .reply none 5 ([1], 1) ([1], 1) 33 (some 0))] ∧
+    (processCmd exW 1 (exDg .reply ([1], 3) true 5)).2 = [(1, .panic)] ∧
+    (processCmd exW 1 (exDg .result ([1], 3) true 5 (some 2))).2 = [(1, .panic)] ∧
+    (processCmd exW 1 { exDg .read ([1], 1) false 5 with ctr := none }).2 = [(1, .panic)] ∧
+    preOf exW 1 (exDg .reply ([1], 3) true 5) = .panic "PrintMessageOverview(nil reference)" ∧
+    preOf cleanW 1 (exDg .reply ([1], 3) true 5) = .proceed := by decide
 
 end Spine.Props.C01
